@@ -123,6 +123,14 @@ def main(argv):
     for gp in gproblems[:5]:
         semfails.append({"kind": "accessor", "case": gp, "avm": gp[:300], "denote": "the field / operands the accessor's name and signature promise"})
 
+    # 0b. witness of the known finding optimizer-orphan-store (always replayed; printed as KNOWN-FINDING only while it still fails)
+    _ld = ("op", "load", (("slot", "wx"),), "u", ())
+    _fee = ("op", "%", (), "u", (("op", "txn", ("Fee",), "u", ()), I(100)))
+    w_orphan = ("return", ("op", "==", (), "u", (("op", "-", (), "u", (I(5000000), ("seq", ("op", "store", (("slot", "wx"),), "n", (I(1),)),
+                                                                                         ("op", "store", (("slot", "wx"),), "n", (_fee,)), _ld))),
+                                                  ("op", "-", (), "u", (I(5000000), _fee)))))
+    consider(compile_case(pt, model, w_orphan, 6, True, True, None), 4)
+
     # 1. exhaustive small shapes x versions x modes
     smalls = small_recipes()
     versions = list(range(2, 11))
